@@ -261,6 +261,14 @@ func build() []Val {
 		extra("x_i16_m300", false, func() any { return int16(-300) }),
 		extra("x_l_i8", false, func() any { return []int8{-1, 0, 1} }),
 		// structs: two distinct types that print the same name, embedded (nil) pointers, tags, unexported and func fields
+		// maps whose key type is a named string type; an ordered map with a sequence as a key
+		extra("x_map_namedkey", false, func() any { return map[NamedString]any{"a": 2, "k": 1, "size": 7} }),
+		extra("x_l_maps_namedkey", false, func() any {
+			return []any{map[NamedString]any{"a": 2, "k": 1}, map[NamedString]any{"a": 1}, map[NamedString]int{"a": 0}}
+		}),
+		extra("x_mslice_seqkey", false, func() any {
+			return yaml.MapSlice{{Key: []any{1}, Value: "seq"}, {Key: map[string]any{"a": 1}, Value: "map"}, {Key: "a", Value: 1}}
+		}),
 		extra("x_page_a", false, pageA),
 		extra("x_page_b", false, pageB),
 		extra("x_embed_nil", false, func() any { return Outer{Y: 1} }),
